@@ -683,18 +683,35 @@ def empties_layouts(n):
 
 
 def asof_stratum(rng, layouts, cases, per_combo, only_middle=False):
-    """The merge_asof stratum that is never sampled out: for every (mode, direction, by, allow_exact_matches, tolerance) `per_combo`
-    cases whose RIGHT operand (and, every other time, the left one too) is laid out with empty partitions, the positions
-    of the empty partitions rotating through first / middle / consecutive / last."""
+    """The merge_asof stratum that is never sampled out: for every (mode, direction, by, allow_exact_matches, tolerance)
+      * one DIRECTED case (index spelling): a left row beyond all right keys with the right operand laid out as rows followed by
+        two empty partitions (backward / nearest: the match has to be carried across the empty partitions by the scan of tails), or
+        a left row before all right keys with two empty partitions in front (forward / nearest: the scan of heads);
+      * `per_combo` cases whose right operand (every other time the left one too) has empty partitions, their position rotating
+        through first / middle / two in a row / last.
+    only_middle (selftest): the directed cases and runs of empty partitions that follow rows only."""
     bycombo = {}
     for c in cases:
         k = c["c"]
-        if k["fam"] == "asof" and len(k["R"]) >= 2:
+        if k["fam"] == "asof" and len(k["R"]) >= 1:
             bycombo.setdefault((k["mode"], k["direction"], bool(k["by"]), bool(k["exact"]), k["tol"]), []).append(c)
     items, turn = [], 0
+    key = lambda r, mode: r["idx"] if mode == "ii" else r["k"]      # noqa: E731
     for combo in sorted(bycombo):
         pool = bycombo[combo]
-        for c in (pool if len(pool) <= per_combo else rng.sample(pool, per_combo)):
+        mode, direction = combo[0], combo[1]
+        if mode == "ii":
+            beyond = [c for c in pool if max(key(r, mode) for r in c["c"]["L"]) > max(key(r, mode) for r in c["c"]["R"])]
+            before = [c for c in pool if min(key(r, mode) for r in c["c"]["L"]) < min(key(r, mode) for r in c["c"]["R"])]
+            for cand, lay, dirs in ((beyond, lambda n: [n, 0, 0], ("backward", "nearest")), (before, lambda n: [0, 0, n], ("forward", "nearest"))):
+                if cand and direction in dirs:
+                    c = rng.choice(cand)
+                    case = c["c"]
+                    cfg = asof_config(rng, layouts, case, llay=[len(case["L"])], rlay=lay(len(case["R"])))
+                    if cfg["rdivs"] is not None:
+                        items.append(("s%d" % len(items), "asof", case, "", cfg, c["e"]))
+        pool2 = [c for c in pool if len(c["c"]["R"]) >= 2]
+        for c in (pool2 if len(pool2) <= per_combo else rng.sample(pool2, per_combo)):
             case = c["c"]
             if only_middle and case["mode"] != "ii":
                 continue
